@@ -105,14 +105,37 @@ func c19Parse(c *Ctx) {
 	}
 	got := map[acc]string{}
 	ambiguous := 0
-	for _, e := range succ {
-		at := b.Of(e.Results[1], e.Instr)
-		tn := ""
-		if w, _ := ana.Find("alloc<*>", at); w != nil {
-			tn = w.Name[strings.LastIndex(w.Name, ".")+1:]
+	// the address term of an accepting return for one (version, length) pair: the returned value itself, or — when the
+	// version/length handling sits in a helper whose result is handed on — the value of the helper exit that pair reaches
+	type addrAt struct {
+		t    *ana.Term
+		inst ssa.Instruction
+	}
+	var addrTerms []addrAt
+	seenRet := map[ssa.Instruction]bool{}
+	addrFor := func(e ana.Exit, tu []int64) *ana.Term {
+		if hb, v, ret, ok := vs.ResultFor(e.Results[1], tu); ok {
+			t := hb.Of(v, ret)
+			if !seenRet[ret] {
+				seenRet[ret] = true
+				addrTerms = append(addrTerms, addrAt{t, ret})
+			}
+			return t
 		}
+		t := b.Of(e.Results[1], e.Instr)
+		if !seenRet[e.Instr] {
+			seenRet[e.Instr] = true
+			addrTerms = append(addrTerms, addrAt{t, e.Instr})
+		}
+		return t
+	}
+	for _, e := range succ {
 		for idx := range sets[e.Instr.Block()] {
 			tu := ana.TupleOf(tuples, idx)
+			tn := ""
+			if w, _ := ana.Find("alloc<*>", addrFor(e, tu)); w != nil {
+				tn = w.Name[strings.LastIndex(w.Name, ".")+1:]
+			}
 			got[acc{tu[0], tu[1] - 1}] = tn
 		}
 	}
@@ -133,8 +156,9 @@ func c19Parse(c *Ctx) {
 	}
 	r.Check(okSet && ambiguous == 0, "C19.parse-exits.accept-set", c.P.Pos(fn.Pos()), "accept set over version 0..255 × payload length 0..59 = %v (want {0x00:32 Ed25519, 0x08:20 Alias, 0x10:20 NFT}); %d pairs both accepted and rejected", fmtAcc(got), ambiguous)
 	// each accept copies the whole remaining payload into the hash array
-	for _, e := range succ {
-		at := b.Of(e.Results[1], e.Instr)
+	for _, aa := range addrTerms {
+		at := aa.t
+		e := struct{ Instr ssa.Instruction }{aa.inst}
 		cp, cb := ana.Find("call<builtin.copy>(slice(faddr<#0>(self), 0, $n), "+rest+")", at)
 		if cp != nil {
 			// the destination is the whole hash array of the returned address type
@@ -313,22 +337,184 @@ func c19Migration(c *Ctx) {
 	}
 	fn := f.Function
 	b := ana.NewBuilder(c.P, fn)
-	trimmed := `call<strings.TrimSuffix>(call<strings.TrimPrefix>(p0, "TRANSFER"), "9")`
-	split := "bin</>(call<github.com/iotaledger/iota.go/encoding/b1t6.EncodedLen>(32), 3)"
-	addrDec := "call<github.com/iotaledger/iota.go/encoding/b1t6.DecodeTrytes>(slice(" + trimmed + ", 0, " + split + "))"
-	chkDec := "call<github.com/iotaledger/iota.go/encoding/b1t6.DecodeTrytes>(slice(" + trimmed + ", " + split + ", none))"
-	hash := "obj(alloc<[32]byte>, store(self, call<golang.org/x/crypto/blake2b.Sum256>(ext#0(" + addrDec + "))))"
-	gates := []struct {
-		name     string
-		acc, rej string
-	}{
-		{"exact-length-81-trytes", "call<github.com/iotaledger/iota.go/guards.IsTrytesOfExactLength>(p0, 81)", ""},
-		{"prefix", `call<strings.HasPrefix>(p0, "TRANSFER")`, ""},
-		{"suffix", `call<strings.HasSuffix>(call<strings.TrimPrefix>(p0, "TRANSFER"), "9")`, ""},
-		{"address-b1t6", "bin<==>(ext#1(" + addrDec + "), nil)", "bin<!=>(ext#1(" + addrDec + "), nil)"},
-		{"checksum-b1t6", "bin<==>(ext#1(" + chkDec + "), nil)", "bin<!=>(ext#1(" + chkDec + "), nil)"},
-		{"checksum-equal", "call<bytes.Equal>(ext#0(" + chkDec + "), slice(" + hash + ", 0, alt(len(ext#0(" + chkDec + ")), 4)))", ""},
+	// positions are absolute in the argument: under the length, prefix and suffix gates the address trytes are s[8:72]
+	// and the checksum trytes s[72:80], however the code cuts them out (TrimPrefix/TrimSuffix or plain slicing)
+	const dt = "github.com/iotaledger/iota.go/encoding/b1t6.DecodeTrytes"
+	var absRange func(t *ana.Term) (int64, int64, bool)
+	var evalInt func(t *ana.Term) (int64, bool)
+	evalInt = func(t *ana.Term) (int64, bool) {
+		if k, ok := t.Int(); ok {
+			return k, true
+		}
+		switch {
+		case t.Is("len"):
+			lo, hi, ok := absRange(t.Arg(0))
+			return hi - lo, ok
+		case t.Is("call", "github.com/iotaledger/iota.go/encoding/b1t6.EncodedLen"):
+			k, ok := evalInt(t.Arg(0))
+			return 6 * k, ok // one byte is six trits (C19.migration-gates.split-arithmetic evaluates the library routine)
+		case t.Is("bin") && len(t.Args) == 2:
+			x, ok1 := evalInt(t.Arg(0))
+			y, ok2 := evalInt(t.Arg(1))
+			if !ok1 || !ok2 {
+				return 0, false
+			}
+			switch t.Name {
+			case "+":
+				return x + y, true
+			case "-":
+				return x - y, true
+			case "*":
+				return x * y, true
+			case "/":
+				if y > 0 && x >= 0 {
+					return x / y, true
+				}
+			}
+		}
+		return 0, false
 	}
+	absRange = func(t *ana.Term) (int64, int64, bool) {
+		t = stripObj(t)
+		switch {
+		case t.IsParam(0):
+			return 0, 81, true
+		case t.Is("call", "strings.TrimPrefix") && t.Arg(1).String() == `"TRANSFER"`:
+			lo, hi, ok := absRange(t.Arg(0))
+			return lo + 8, hi, ok && lo == 0
+		case t.Is("call", "strings.TrimSuffix") && t.Arg(1).String() == `"9"`:
+			lo, hi, ok := absRange(t.Arg(0))
+			return lo, hi - 1, ok && hi == 81
+		case t.Is("slice"):
+			lo, hi, ok := absRange(t.Arg(0))
+			if !ok {
+				return 0, 0, false
+			}
+			a, okA := evalInt(t.Arg(1))
+			bb := hi - lo
+			okB := true
+			if !t.Arg(2).Is("none") {
+				bb, okB = evalInt(t.Arg(2))
+			}
+			if !okA || !okB || a < 0 || bb < a || lo+bb > hi {
+				return 0, 0, false
+			}
+			return lo + a, lo + bb, true
+		case t.Is("ext") || t.Is("call"):
+			// a piece cut out by a repository helper: the value of its successful exit
+			if x, ch := ana.ExpandCalls(c.P, t); ch && x.String() != t.String() {
+				return absRange(x)
+			}
+		}
+		return 0, 0, false
+	}
+	isRange := func(t *ana.Term, lo, hi int64) bool {
+		l, h, ok := absRange(t)
+		return ok && l == lo && h == hi
+	}
+	decOf := func(t *ana.Term, k int, lo, hi int64) bool { // ext#k(DecodeTrytes(s[lo:hi]))
+		t = stripObj(t)
+		return t.Is("ext") && t.Idx == k && t.Arg(0).Is("call", dt) && isRange(t.Arg(0).Arg(0), lo, hi)
+	}
+	classify := func(lit *ana.Term) (string, bool) { // gate name, accepting?
+		pos := true
+		if lit.Op == "un" && lit.Name == "!" {
+			lit, pos = lit.Args[0], false
+		}
+		switch {
+		case matches("call<github.com/iotaledger/iota.go/guards.IsTrytesOfExactLength>(p0, 81)", lit):
+			return "exact-length-81-trytes", pos
+		case matches(`call<strings.HasPrefix>(p0, "TRANSFER")`, lit):
+			return "prefix", pos
+		case lit.Is("call", "strings.HasSuffix") && lit.Arg(1).String() == `"9"`:
+			if _, hi, ok := absRange(lit.Arg(0)); ok && hi == 81 {
+				return "suffix", pos
+			}
+		case lit.Is("bin") && (lit.Name == "==" || lit.Name == "!=") && lit.Arg(1).Is("nil") && pos:
+			if decOf(lit.Arg(0), 1, 8, 72) {
+				return "address-b1t6", lit.Name == "=="
+			}
+			if decOf(lit.Arg(0), 1, 72, 80) {
+				return "checksum-b1t6", lit.Name == "=="
+			}
+		case lit.Is("call", "bytes.Equal"):
+			for _, pr := range [][2]*ana.Term{{lit.Arg(0), lit.Arg(1)}, {lit.Arg(1), lit.Arg(0)}} {
+				if !decOf(pr[0], 0, 72, 80) {
+					continue
+				}
+				h := pr[1]
+				if !h.Is("slice") || !h.Arg(1).IsInt(0) {
+					continue
+				}
+				n, okN := h.Arg(2).Int()
+				if !okN && h.Arg(2).Is("len") && decOf(h.Arg(2).Arg(0), 0, 72, 80) {
+					n, okN = 4, true // eight trytes decode to four bytes (split-arithmetic)
+				}
+				hb, okH := ana.Match("obj(alloc<[32]byte>, store(self, call<golang.org/x/crypto/blake2b.Sum256>($a)))", h.Arg(0))
+				if okN && n == 4 && okH && decOf(hb["$a"], 0, 8, 72) {
+					return "checksum-equal", pos
+				}
+			}
+		}
+		return "", false
+	}
+	gateNames := []string{"exact-length-81-trytes", "prefix", "suffix", "address-b1t6", "checksum-b1t6", "checksum-equal"}
+	// gates of a function; a test of a helper's error result stands for the gates every successful exit of the helper has
+	// passed (and, as a reject reason, is legitimate when every failing exit is reachable only through reject edges)
+	var gather func(gb *ana.Builder, depth int) (map[string][]ana.Edge, []ana.Edge)
+	gather = func(gb *ana.Builder, depth int) (map[string][]ana.Edge, []ana.Edge) {
+		acc := map[string][]ana.Edge{}
+		var rej []ana.Edge
+		for _, ce := range gb.CondEdges() {
+			name, isAcc := classify(ce.Lit)
+			if name == "" {
+				// a single-exit helper (e.g. a shared checksum routine) in its place
+				if x, ch := ana.ExpandCalls(c.P, ce.Lit); ch {
+					name, isAcc = classify(x)
+				}
+			}
+			if name != "" {
+				if isAcc {
+					acc[name] = append(acc[name], ce.Edge)
+				} else {
+					rej = append(rej, ce.Edge)
+				}
+				continue
+			}
+			o, ok := helperOutcome(ce.Lit)
+			if !ok || depth >= 2 || (o.kind != "nil" && o.kind != "nonnil") {
+				continue
+			}
+			hb := c.boundBuilder(o.call)
+			xs := exitsWith(hb, o)
+			if len(xs) == 0 {
+				continue
+			}
+			hacc, hrej := gather(hb, depth+1)
+			if o.kind == "nil" {
+				for _, name := range gateNames {
+					all := true
+					for _, x := range xs {
+						all = all && mustPass(hb.Fn, x.Instr.Block(), hacc[name])
+					}
+					if all {
+						acc[name] = append(acc[name], ce.Edge)
+					}
+				}
+			} else {
+				avoid := ana.ReachableAvoiding(hb.Fn, hrej)
+				all := true
+				for _, x := range xs {
+					all = all && !avoid[x.Instr.Block()]
+				}
+				if all {
+					rej = append(rej, ce.Edge)
+				}
+			}
+		}
+		return acc, rej
+	}
+	accEdges, rejects := gather(b, 0)
 	var succ, errs []ana.Exit
 	for _, e := range ana.Exits(fn) {
 		if e.Panic {
@@ -343,16 +529,9 @@ func c19Migration(c *Ctx) {
 	}
 	r.Floor("C19.floor.migration-success", len(succ), 1, "success returns of migration.Decode")
 	r.Floor("C19.floor.migration-errors", len(errs), 1, "error returns of migration.Decode")
-	var rejects []ana.Edge
-	for _, g := range gates {
-		rej := g.rej
-		if rej == "" {
-			rej = "un<!>(" + g.acc + ")"
-		}
-		acc := plainEdges(edgesMatching(b, g.acc))
-		rejects = append(rejects, plainEdges(edgesMatching(b, rej))...)
+	for _, name := range gateNames {
 		for _, e := range succ {
-			r.Check(len(acc) > 0 && mustPass(fn, e.Instr.Block(), acc), "C19.migration-gates."+g.name, c.ipos(e.Instr), "success return passes the %s gate", g.name)
+			r.Check(mustPass(fn, e.Instr.Block(), accEdges[name]), "C19.migration-gates."+name, c.ipos(e.Instr), "success return passes the %s gate", name)
 		}
 	}
 	avoid := ana.ReachableAvoiding(fn, rejects)
@@ -361,7 +540,10 @@ func c19Migration(c *Ctx) {
 	}
 	for _, e := range succ {
 		t := b.Of(e.Results[0], e.Instr)
-		cp, _ := ana.Find("call<builtin.copy>(slice(self, 0, 32), ext#0("+addrDec+"))", t)
+		cp, cb := ana.Find("call<builtin.copy>(slice(self, 0, 32), $d)", t)
+		if cp != nil && !decOf(cb["$d"], 0, 8, 72) {
+			cp = nil
+		}
 		r.Check(cp != nil, "C19.migration-gates.returned-address", c.ipos(e.Instr), "returned address = the 32 bytes decoded from the first 64 trytes after the prefix")
 	}
 	// layout arithmetic: 81 = len(prefix) + 64 + 8 + len(suffix); 8 trytes = 4 bytes
